@@ -540,7 +540,10 @@ func (r *RTPReceiver) readRTP(b []byte, reader *TrackRemote) (n int, a intercept
 		return 0, nil, io.EOF
 	}
 
-	if t := r.streamsForTrack(reader); t != nil {
+	// a track that was configured from the remote description but never got its
+	// streams (e.g. a second track announced with an SSRC that is already in use)
+	// has no interceptor to read from.
+	if t := r.streamsForTrack(reader); t != nil && t.rtpInterceptor != nil {
 		return t.rtpInterceptor.Read(b, a)
 	}
 
